@@ -12,7 +12,9 @@ pub fn note_abort(ctx: &mut Ctx, res: &CallResult, props: &[&'static str]) -> bo
     }
     if let Some(l) = &res.abort_leak {
         let l = l.clone();
-        return ctx.check(false, props, "abort/partial-effects-survived", || l);
+        let _ = props;
+        ctx.harness(l);
+        return false;
     }
     true
 }
